@@ -812,6 +812,8 @@ class Time(object):
             self._from_timestring(value)
         else:
             raise TypeError('Time arguments must be a whole number, datetime.time, or string')
+        if not 0 <= self.nanosecond_time < Time.DAY:
+            raise ValueError("%r is not a time within one day (0 <= nanoseconds < %d)" % (value, Time.DAY))
 
     @property
     def hour(self):
